@@ -5,6 +5,8 @@ CONSTANTS
   MaxKw = 1
   Hazard = {"self"}
   MaxHaz = 1
+  Implicit = {}
+  ImplKw = 1
   HazParams = 1
   HazPos = 1
   HazKw = 1
